@@ -1,2 +1,2 @@
 import ScVerif.C19.Drv
-def main : IO Unit := ScVerif.Line.runDriverS ScVerif.C19.KSt.init ScVerif.C19.handleS
+def main : IO Unit := ScVerif.Line.runDriverS ScVerif.C19.DSt.init ScVerif.C19.handleD
